@@ -5,7 +5,7 @@ from .c01 import domain_check
 PID = "C02"
 TIERS = {
     "quick":    dict(mc="MC_SecStruct_7.cfg", maxn=9, knotted=300, rnd=300,
-                     stems=[dict(maxk=4, lens=(1, 3, 5), mincross=3, stars=(9, 10, 12))]),
+                     stems=[dict(maxk=4, lens=(1, 3, 5), mincross=3, stars=(9, 10, 12, 30))]),
     "thorough": dict(mc="MC_SecStruct_8.cfg", maxn=11, knotted=5000, rnd=4000,
                      stems=[dict(maxk=4, lens=(1, 2, 3, 5, 8), mincross=1, stars=(9, 10, 11, 12, 15)),
                             dict(maxk=5, lens=(1, 3), mincross=3, stars=())]),
